@@ -68,6 +68,57 @@ func collectFileOps(w *World, e *termEnv, fn *ssa.Function, depth int, chain str
 	}
 }
 
+// checkTempNameStamp: recorders sharing a directory (motion and test recordings can start within the same second, even
+// on the same frame; consecutive continuous files when frames arrive in a burst) are kept apart only by the time stamp
+// in the temporary name: it must have sub-second resolution.
+func checkTempNameStamp(w *World, r *Report, rule string, start *ssa.Function, ops []fileOp) {
+	nLayouts := 0
+	var findLayouts func(t *Term)
+	findLayouts = func(t *Term) {
+		if t.Op == "call" && strings.HasSuffix(t.Name, "time.Time.Format") && len(t.Args) == 2 {
+			if l, ok := constString(t.Args[1]); ok {
+				nLayouts++
+				frac := strings.Contains(l, ".000") || strings.Contains(l, ",000") || strings.Contains(l, ".999") || strings.Contains(l, ",999")
+				r.Check(frac, rule, "temporary names carry a time stamp with sub-second resolution (concurrently open recordings in one directory must not share a name)", w.Pos(start.Pos()), "layout "+fmt.Sprintf("%q", l))
+			}
+		}
+		for _, a := range t.Args {
+			findLayouts(a)
+		}
+	}
+	for _, op := range ops {
+		if op.Op == "create" && nLayouts == 0 {
+			findLayouts(op.Args[0])
+		}
+	}
+	r.Check(nLayouts >= 1, rule, "temporary names are derived from a time stamp", w.Pos(start.Pos()), fmt.Sprint(nLayouts))
+}
+
+// recorderFileOps: the file operations reachable from CPTVFileRecorder.StartRecording (name helpers inlined).
+func recorderFileOps(w *World) (*ssa.Function, []fileOp) {
+	pkgRel := "cmd/thermal-recorder"
+	T := w.NamedType(pkgRel, "CPTVFileRecorder")
+	pkg := w.Pkg(pkgRel)
+	if T == nil || pkg == nil {
+		return nil, nil
+	}
+	start := findMethod(w.Prog, T, "StartRecording")
+	if start == nil {
+		return nil, nil
+	}
+	e := newTermEnv(w)
+	for _, mem := range pkg.Members {
+		if fn, ok := mem.(*ssa.Function); ok && fn.Signature.Results().Len() >= 1 && len(fn.Blocks) > 0 && len(fn.Blocks) <= 4 {
+			if bt, ok := fn.Signature.Results().At(0).Type().Underlying().(*types.Basic); ok && bt.Info()&types.IsString != 0 {
+				e.forceInline[fn] = true
+			}
+		}
+	}
+	var ops []fileOp
+	collectFileOps(w, e, start, 0, "StartRecording", &ops, map[*ssa.Function]int{})
+	return start, ops
+}
+
 func propC10(w *World, r *Report) {
 	r.Explanation = "Decided clause: (D1) every file created on behalf of a recording (by CPTVFileRecorder.StartRecording and, through it, by go-cptv's writer: the output file and its .tmp scratch file) has a name whose constant suffix does not end in '.cptv'; (D2) the only operation in the recorder that gives a file a '.cptv' name is the os.Rename of the stop path, whose source is the open writer's own name and whose target is that name with the constant regexp stripping '.temp', and on every path it is preceded by the writer's Close (which compresses, closes and deletes the scratch file); (D3) the recorder's writer field is set only by a fully successful start, is cleared by every stop, Stop() (connection loss) closes and removes the temporary file and is deferred right after construction; (D4) runMain runs the start-up clean-up on OutputDir before the first connection is handled and returns its error; (D5) coverage: for every creation suffix and every creation directory some glob removed by the clean-up matches it. Rule: file-name suffix abstract domain (constant suffixes through +, Join, time.Format, Sprintf, constant regexp replacement) + dominator/ordering analysis."
 	r.RuleText = "obligation per (rule, file operation / path)"
@@ -141,28 +192,7 @@ func propC10(w *World, r *Report) {
 		creations = append(creations, creation{suffix: sx.s, pos: pos})
 	}
 	r.Check(nCreate >= 2, "G4", "file creations reachable from StartRecording (output file + scratch file)", "-", fmt.Sprint(nCreate))
-	// D1b: recorders sharing a directory (motion and test recordings can start within the same second, even on
-	// the same frame) are kept apart only by the time stamp in the temporary name: it must have sub-second resolution
-	nLayouts := 0
-	var findLayouts func(t *Term)
-	findLayouts = func(t *Term) {
-		if t.Op == "call" && strings.HasSuffix(t.Name, "time.Time.Format") && len(t.Args) == 2 {
-			if l, ok := constString(t.Args[1]); ok {
-				nLayouts++
-				frac := strings.Contains(l, ".000") || strings.Contains(l, ",000") || strings.Contains(l, ".999") || strings.Contains(l, ",999")
-				r.Check(frac, "D1", "temporary names carry a time stamp with sub-second resolution (concurrently open recordings in one directory must not share a name)", w.Pos(start.Pos()), "layout "+fmt.Sprintf("%q", l))
-			}
-		}
-		for _, a := range t.Args {
-			findLayouts(a)
-		}
-	}
-	for _, op := range ops {
-		if op.Op == "create" && nLayouts == 0 {
-			findLayouts(op.Args[0])
-		}
-	}
-	r.Check(nLayouts >= 1, "D1", "temporary names are derived from a time stamp", w.Pos(start.Pos()), fmt.Sprint(nLayouts))
+	checkTempNameStamp(w, r, "D1", start, ops)
 	// creation directories: values the output-dir field can hold, relative to Config.OutputDir
 	ctor := w.ctorOf(T)
 	dirRel := map[string]bool{}
@@ -791,6 +821,10 @@ func runsBeforeServing(w *World, handler *ssa.Function, site ssa.Instruction, de
 		target = cs[0]
 	}
 	g := site.Parent()
+	if inLoop(site.Block()) {
+		// start-up work runs once; inside a loop (the accept loop) it would run again for every connection
+		return false, ""
+	}
 	for _, l := range chain {
 		if l.fn == g {
 			if site.Block() == l.call.Block() && instrIndex(site) < instrIndex(l.call) || site.Block() != l.call.Block() && site.Block().Dominates(l.call.Block()) {
